@@ -762,6 +762,12 @@ void mon_inbound(const Run& run, const Ix&, Verdicts& v, vu::Result& res) {
         for (auto& m : out) {
             if (m.qos != q || !count[m.id] || m.pub_bpkts.empty()) continue;
             if (m.st == OutMsg::abandoned) continue;   // its session was lost: no ordering is owed relative to the new session
+            {   // the same when the session was lost between the broker's first transmission and the (late) delivery: handing over a
+                // message of a lost session is the defect of F7 / F10, reported under their own keys, not an ordering question
+                bool lost_between = false;
+                if (m.pub_bpkts[0] >= 0) { uint64_t s0 = h.bpkts[m.pub_bpkts[0]].seq; for (auto& c : h.conns) if (c.connack_sent && c.connack_rc == 0 && !c.session_present && c.seq_begin > s0 && c.seq_begin < first_delivery[m.id]) lost_between = true; }
+                if (lost_between) { res.count("late_deliveries_from_a_lost_session"); continue; }
+            }
             if (first_delivery[m.id] < last) v.add("C04", std::string("C04:delivery-order:qos") + char('0' + q), "message " + m.topic + " was delivered before message #" + std::to_string(last_id) + " of the same QoS which the broker sent first");
             else { last = first_delivery[m.id]; last_id = m.id; }
         }
